@@ -22,6 +22,7 @@ func init() {
 		MinCounts:   map[string]int{"EH-PAIR": 6, "EH-CASE": 4},
 		Trusted:     trustedBase,
 		Controls: []core.Control{
+			{Name: "eq-treats-nans-as-equal-hash-does-not", Rule: "EH-CASE", File: "pkg/eval/vals/equal.go", Old: "\tcase float64:\n\t\treturn x == y\n\tcase string:", New: "\tcase float64:\n\t\tif y, ok := y.(float64); ok {\n\t\t\treturn compareFloat(x, y) == CmpEqual\n\t\t}\n\t\treturn false\n\tcase string:", Fire: true, Want: "NaN", Patterns: []string{"./pkg/eval/vals"}},
 			{Name: "revert-fix-float-zero-hash", Rule: "EH-CASE", File: "pkg/eval/vals/hash.go", Old: "\t\tif v == 0 {\n\t\t\t// +0.0 and -0.0 are equal, so they must have the same hash.\n\t\t\tv = 0\n\t\t}\n", New: "", Fire: true, Quick: true, Patterns: []string{"./pkg/eval/vals"}},
 			{Name: "fieldmap-hash-order-dependent", Rule: "EH-CASE", File: "pkg/eval/vals/hash.go", Old: "\tvar h uint32\n\tfor i, key := range keys {\n\t\th += hash.DJB(Hash(key), Hash(value.Field(i).Interface()))", New: "\th := hash.DJBInit\n\tfor i, key := range keys {\n\t\th = hash.DJBCombine(h, hash.DJB(Hash(key), Hash(value.Field(i).Interface())))", Fire: true, Patterns: []string{"./pkg/eval/vals"}},
 			{Name: "map-hash-order-dependent", Rule: "EH-CASE", File: "pkg/eval/vals/hash.go", Old: "\t\th += hash.DJB(Hash(k), Hash(v))\n\t}\n\treturn h\n}\n\nfunc hashFieldMap", New: "\t\th = hash.DJBCombine(h, hash.DJB(Hash(k), Hash(v)))\n\t}\n\treturn h\n}\n\nfunc hashFieldMap", Fire: true, Patterns: []string{"./pkg/eval/vals"}},
@@ -294,6 +295,60 @@ func runC08(p *core.Program, r *core.Report) {
 		}
 	})
 	r.Anchor("EH-CASE", "math.Float64bits in vals.Hash", nbits >= 1)
+
+	// float64, NaN: the hash is the bit pattern, and NaNs produced by
+	// different operations have different bit patterns. That agrees with eq
+	// only as long as eq compares floats with IEEE ==, under which no NaN
+	// equals anything. If vals.Equal hands a float to some other comparison
+	// (e.g. one that treats all NaNs as equal, as compare does), the hash has
+	// to map every NaN to one value first.
+	customFloatEq := ""
+	var floatEqPos ssa.Instruction
+	core.Instrs(equalFn, func(ins ssa.Instruction) {
+		c, ok := ins.(*ssa.Call)
+		if !ok {
+			return
+		}
+		if _, isB := c.Call.Value.(*ssa.Builtin); isB {
+			return
+		}
+		for _, a := range c.Call.Args {
+			v := a
+			if mi, ok := v.(*ssa.MakeInterface); ok {
+				v = mi.X
+			}
+			if b, ok := v.Type().Underlying().(*types.Basic); ok && b.Kind() == types.Float64 {
+				name := "a function value"
+				if callee := c.Call.StaticCallee(); callee != nil {
+					name = core.FnKey(callee)
+				}
+				customFloatEq, floatEqPos = name, ins
+			}
+		}
+	})
+	nanNormalised := false
+	core.Instrs(hashFn, func(ins ssa.Instruction) {
+		switch x := ins.(type) {
+		case *ssa.Call:
+			if callee := x.Call.StaticCallee(); callee != nil && callee.String() == "math.IsNaN" {
+				nanNormalised = true
+			}
+		case *ssa.BinOp:
+			if (x.Op == token.NEQ || x.Op == token.EQL) && x.X == x.Y {
+				if b, ok := x.X.Type().Underlying().(*types.Basic); ok && b.Kind() == types.Float64 {
+					nanNormalised = true // v != v
+				}
+			}
+		}
+	})
+	switch {
+	case customFloatEq == "":
+		r.OK("EH-CASE", "vals.Equal compares floats with ==, or vals.Hash maps all NaNs to one hash", p.Pos(equalFn.Pos()), "no float is handed to another comparison inside vals.Equal: IEEE == equates no NaN, so differing NaN bit patterns never hash eq values apart")
+	case nanNormalised:
+		r.OK("EH-CASE", "vals.Equal compares floats with ==, or vals.Hash maps all NaNs to one hash", p.InsPos(floatEqPos), "vals.Equal uses "+customFloatEq+" for floats and vals.Hash tests for NaN before taking the bit pattern")
+	default:
+		r.Bad("EH-CASE", "vals.Equal compares floats with ==, or vals.Hash maps all NaNs to one hash", p.InsPos(floatEqPos), "vals.Equal compares floats through "+customFloatEq+" instead of ==, but vals.Hash still hashes the raw bit pattern without a NaN case: if that comparison equates NaNs (as the ordering functions do), NaNs with different bit patterns (num NaN vs. Inf-Inf) are eq and hash differently - a map misses or duplicates the key")
+	}
 
 	// map hashers: commutative accumulation, same operator / init / per-entry function
 	type accInfo struct {
